@@ -95,9 +95,13 @@ class Version(object):
 
         if self.revision not in (None, '0'):
             version += f'-{self.revision}'
-        elif self.revision == '0' and '-' in (self.upstream or ''):
+        elif self.revision == '0' and self.upstream and (
+            '-' in self.upstream or not self.upstream[-1].isalnum()
+        ):
             # the zero revision can only be omitted when the upstream has no
             # hyphen: "1-2" would otherwise be read back as upstream 1 revision 2
+            # and when the upstream ends with an alphanumeric: "1~" alone is not
+            # accepted as a version while "1~-0" is.
             version += '-0'
 
         return version
